@@ -10,7 +10,7 @@ from av.props import simprop
 MANIFEST_ENTRY = {
     "category": "exploration",
     "technique": "exception-classification oracle over a mutation catalogue with known verdicts applied to valid generated and library workbooks (cell-level edits located by header text), plus an accepted-implies-runnable monitor on every accepted framework",
-    "text": "Valid generated frameworks must be accepted, produce a blank databook that reads back, and - once filled with valid numbers - build and run without NaN. Every mutation of the catalogue (delete a required sheet / column, blank an optional column, undefined compartment / parameter / population / characteristic component, duplicate code or display name, reserved names and symbols, wrong unit on junction / source / sink links, outflow from a sink, inflow to a source, self-referencing and cyclic functions, unsupported calls, syntax errors, aggregation of an expression, un-nested cascade, the two junction rules of the timed-transition documentation, missing population sheet / table / row values, unit mismatch, wrong workbook kind, program without targets or unit cost, reserved program name, ...) is applied to a valid parent and the loader's reaction is classified: DEDICATED (InvalidFramework / InvalidCascade / InvalidDatabook / InvalidProgramBook), INTERNAL (anything else), or accepted. must-reject mutants have to end DEDICATED, must-accept mutants have to be accepted (and behave like the parent where stated), and an INTERNAL error is always a violation. The catalogue includes duplicate names across sheets and databook unit cells holding another valid unit word. Cycles through population-aggregation parameters and an aggregation of itself are must-reject classes. Cascade stages naming an undefined name, a parameter or an interaction are must-reject classes. A Units cell with the right unit word but another time scale is a must-reject class. Value rows are blanked per kind of table (parameter with a function, parameter without, compartment, characteristic). Minimal valid layouts (one compartment per population, transfers only, no units) are part of the valid class; outcome columns of a program book headed by something that is not a program are must-reject classes.",
+    "text": "Valid generated frameworks must be accepted, produce a blank databook that reads back, and - once filled with valid numbers - build and run without NaN. Every mutation of the catalogue (delete a required sheet / column, blank an optional column, undefined compartment / parameter / population / characteristic component, duplicate code or display name, reserved names and symbols, wrong unit on junction / source / sink links, outflow from a sink, inflow to a source, self-referencing and cyclic functions, unsupported calls, syntax errors, aggregation of an expression, un-nested cascade, the two junction rules of the timed-transition documentation, missing population sheet / table / row values, unit mismatch, wrong workbook kind, program without targets or unit cost, reserved program name, ...) is applied to a valid parent and the loader's reaction is classified: DEDICATED (InvalidFramework / InvalidCascade / InvalidDatabook / InvalidProgramBook), INTERNAL (anything else), or accepted. must-reject mutants have to end DEDICATED, must-accept mutants have to be accepted (and behave like the parent where stated), and an INTERNAL error is always a violation. The catalogue includes duplicate names across sheets and databook unit cells holding another valid unit word. Cycles through population-aggregation parameters and an aggregation of itself are must-reject classes. Cascade stages naming an undefined name, a parameter or an interaction are must-reject classes. A Units cell with the right unit word but another time scale is a must-reject class. Value rows are blanked per kind of table (parameter with a function, parameter without, compartment, characteristic). Minimal valid layouts (one compartment per population, transfers only, no units) are part of the valid class; outcome columns of a program book headed by something that is not a program are must-reject classes. A table duplicated on another sheet is a must-reject class.",
     "note": "The catalogue is finite and hand-written from the documented rules; a rule that is not in the catalogue is not exercised. Mutations locate cells by header text, never by coordinates.",
 }
 
